@@ -24,6 +24,7 @@ CONSTANTS
   MaxAdm = @@MAXADM@@
   Acts = @@ACTS@@
   Atomic = @@ATOMIC@@
+  BlForms = @@BLFORMS@@
   Fixed = @@FIXED@@
   EmitActs = {}
   MaxHist = 999
